@@ -149,6 +149,8 @@ let goals = [
   { name = "hyp"; bad = (fun s -> not s.g.creator_failed && not s.g.saw_marked && List.exists (fun u -> not (conn_unlink_good u)) s.g.unl) };
   { name = "hyp-creator-only"; bad = (fun s -> not s.g.creator_failed && List.exists (fun u -> not (conn_unlink_good u)) s.g.unl) };
   { name = "hyp-marked-only"; bad = (fun s -> not s.g.saw_marked && List.exists (fun u -> not (conn_unlink_good u)) s.g.unl) };
+  { name = "stale"; bad = (fun s -> List.exists (fun u -> match u.u_rm with Some i -> i <> u.u_hinc | None -> false) s.g.unl) };
+  { name = "stale-attached"; bad = (fun s -> List.exists (fun u -> match u.u_rm with Some i -> i <> u.u_hinc && u.u_att | None -> false) s.g.unl) };
   { name = "both-attached"; bad = (fun s -> List.exists (fun u -> u.u_rm <> None && int_of_n u.u_st = 3) s.g.unl) };
   { name = "attached-on-removed"; bad = (fun s ->
       (* a port that completed create_* and is still held sits on an incarnation the name no longer refers to *)
